@@ -182,11 +182,11 @@ map) consist of: TEXT items, CODE / NUM items with relationship HAS OBS CONTEXT,
 reference — none under a name the library uses for something else -/
 def ContextItemOK (it : GItem) : Prop :=
   (it.vt = "TEXT" ∨ ((it.vt = "CODE" ∨ it.vt = "NUM") ∧ it.rel = "HAS OBS CONTEXT") ∨ (it.vt = "COMPOSITE" ∧ it.name = cRwvm)) ∧
-  fixedNames.contains it.name = false
+  fixedNames.contains it.name = false ∧ it.sound = true
 
 theorem contextItemOK_iff (it : GItem) : contextItemOK it = true ↔ ContextItemOK it := by
   unfold contextItemOK ContextItemOK
-  simp only [Bool.and_eq_true, Bool.or_eq_true, beq_iff_eq, Bool.not_eq_true', or_assoc]
+  simp only [Bool.and_eq_true, Bool.or_eq_true, beq_iff_eq, Bool.not_eq_true', or_assoc, and_assoc]
 
 def ContextOK (p : Params) : Prop := (∀ it ∈ p.ctxA, ContextItemOK it) ∧ (∀ it ∈ p.ctxB, ContextItemOK it)
 
@@ -253,7 +253,7 @@ theorem countLoop_seriesItems (u : Option String) (c : Int × Int × Int × Int 
   | some x => simp [seriesItems, countLoop, Gen.roiCountStep]
 
 theorem countLoop_regions (rs : List (String × Ref)) (a b c d e : Int) :
-    countLoop (rs.map (fun x => ({ name := cImageRegion, vt := "SCOORD", rel := "CONTAINS", graphic := x.1, kids := [srcKid x.2] } : GItem)))
+    countLoop (rs.map (fun x => ({ name := cImageRegion, vt := "SCOORD", rel := "CONTAINS", graphic := x.1, kids := [srcKid x.2], hasSeq := true } : GItem)))
       (a, b, c, d, e) = .ok (a + rs.length, b, c, d, e) := by
   induction rs generalizing a with
   | nil => simp [countLoop]
@@ -428,7 +428,7 @@ theorem ctx_any_false (l : List GItem) (hl : ∀ it ∈ l, ContextItemOK it) (nm
     (q : GItem → Bool) : l.any (fun it => it.name == nm && q it) = false := by
   apply any_false_of_forall
   intro it hit
-  have h1 := (hl it hit).2
+  have h1 := (hl it hit).2.1
   have : (it.name == nm) = false := by
     apply beq_eq_false_iff_ne.mpr
     intro e
@@ -586,7 +586,7 @@ theorem roiRefLoop_seriesItems (allowed : List String) (h : allowed.contains cSo
     rfl
 
 def regionItem (x : String × Ref) : GItem :=
-  { name := cImageRegion, vt := "SCOORD", rel := "CONTAINS", graphic := x.1, kids := [srcKid x.2] }
+  { name := cImageRegion, vt := "SCOORD", rel := "CONTAINS", graphic := x.1, kids := [srcKid x.2], hasSeq := true }
 
 def surfaceItem (gr : String) : GItem := { name := cVolumeSurface, vt := "SCOORD3D", rel := "CONTAINS", graphic := gr }
 
@@ -692,7 +692,7 @@ theorem volumetricRefItems_constructed (p : Params) (hctx : ContextOK p) (t : St
       have ha : Gen.volumetricAllowedRefTypes.contains cImageRegion = true := by decide
       have hl : Gen.refTypeValueTypes.lookup cImageRegion = some ["SCOORD", "SCOORD3D"] := by decide
       have hstep := roiRefLoop_regions Gen.volumetricAllowedRefTypes ha xs [regionItem x]
-      have hmap : (List.map (fun x => ({ name := cImageRegion, vt := "SCOORD", rel := "CONTAINS", graphic := x.1, kids := [srcKid x.2] } : GItem)) xs)
+      have hmap : (List.map (fun x => ({ name := cImageRegion, vt := "SCOORD", rel := "CONTAINS", graphic := x.1, kids := [srcKid x.2], hasSeq := true } : GItem)) xs)
           = xs.map regionItem := rfl
       simp only [refItems, List.map_cons, roiRefLoop, ha, hl, hmap]
       simp only [regionItem] at hstep
@@ -786,9 +786,63 @@ theorem pairBeq (a : Bool) (b : String) (gt : Bool × String) : (some (a, b) == 
 theorem and_congr3 {a b c b' c' : Bool} (h1 : b = b') (h2 : c = c') : (a && b && c) = (a && b' && c') := by
   rw [h1, h2]
 
-theorem planarKeep_constructed (p : Params) (f : Filters) (hc : CleanNames p) (hctx : ContextOK p) (t : String) (it : GItem)
-    (h : planarFound p.ref = some (t, it)) : planarKeep (mkGroup p) f = .ok (specFilters .planar p f) := by
-  unfold planarKeep
+theorem pairBeq' (a : Bool) (b : String) (gt : Bool × String) : (gt == (a, b)) = (gt.1 == a && gt.2 == b) := by
+  obtain ⟨x, y⟩ := gt
+  rfl
+
+theorem graphic_single (a : Bool) (gr : String) (it : GItem) (hvt : it.vt = if a then "SCOORD" else "SCOORD3D")
+    (hg : it.graphic = gr) (gt : Bool × String) : graphicMatches it gt = [(a, gr)].contains gt := by
+  obtain ⟨x, y⟩ := gt
+  simp only [graphicMatches, List.contains_cons, List.contains_nil, Bool.or_false, hvt, hg]
+  by_cases h : gr = y
+  · subst h; cases a <;> cases x <;> simp
+  · have h' : ¬ y = gr := fun e => h e.symm
+    have e1 : (gr == y) = false := beq_eq_false_iff_ne.mpr h
+    have e2 : ∀ b : Bool, ((b, y) == (b, gr)) = false := fun b =>
+      beq_eq_false_iff_ne.mpr (by intro e; exact h' (Prod.mk.inj e).2)
+    cases a <;> cases x <;> simp [e1, e2]
+
+theorem graphic_entry_eq (a : Bool) (gr : String) (it : GItem) (hvt : it.vt = if a then "SCOORD" else "SCOORD3D")
+    (hg : it.graphic = gr) (gt : Bool × String) :
+    (it.vt == (if gt.1 then "SCOORD" else "SCOORD3D") && it.graphic == gt.2) = (gt == (a, gr)) := by
+  obtain ⟨x, y⟩ := gt
+  simp only [hvt, hg]
+  by_cases h : gr = y
+  · subst h; cases a <;> cases x <;> simp
+  · have h' : ¬ y = gr := fun e => h e.symm
+    have e1 : (gr == y) = false := beq_eq_false_iff_ne.mpr h
+    have e2 : ∀ b c : Bool, ((b, y) == (c, gr)) = false := fun b c =>
+      beq_eq_false_iff_ne.mpr (by intro e; exact h' (Prod.mk.inj e).2)
+    simp [e1, e2]
+
+theorem volGraphic_map {α} (mk : α → GItem) (a : Bool) (gof : α → String)
+    (h1 : ∀ x, (mk x).vt = if a then "SCOORD" else "SCOORD3D") (h2 : ∀ x, (mk x).graphic = gof x) (gt : Bool × String) :
+    ∀ l : List α, volGraphicMatches (l.map mk) gt = (l.map (fun x => (a, gof x))).contains gt := by
+  intro l
+  induction l with
+  | nil => rfl
+  | cons x xs ih =>
+    unfold volGraphicMatches at ih ⊢
+    simp only [List.map_cons, List.any_cons, List.contains_cons, ih, graphic_entry_eq a (gof x) (mk x) (h1 x) (h2 x) gt]
+
+theorem volGraphic_replicate (it : GItem) (a : Bool) (gr : String) (hvt : it.vt = if a then "SCOORD" else "SCOORD3D")
+    (hg : it.graphic = gr) (gt : Bool × String) :
+    ∀ n : Nat, volGraphicMatches (List.replicate n it) gt = (List.replicate n (a, gr)).contains gt := by
+  intro n
+  induction n with
+  | zero => rfl
+  | succ n ih =>
+    unfold volGraphicMatches at ih ⊢
+    simp only [List.replicate_succ, List.any_cons, List.contains_cons, ih, graphic_entry_eq a gr it hvt hg gt]
+
+theorem volGraphic_other (it : GItem) (h1 : it.vt ≠ "SCOORD") (h2 : it.vt ≠ "SCOORD3D") (gt : Bool × String) :
+    volGraphicMatches [it] gt = false := by
+  unfold volGraphicMatches
+  cases hg : gt.1 <;> simp [h1, h2]
+
+theorem planarKeepP_constructed (p : Params) (f : Filters) (hc : CleanNames p) (hctx : ContextOK p) (t : String) (it : GItem)
+    (h : planarFound p.ref = some (t, it)) : planarKeepP (mkGroup p) f = .ok (specFilters .planar p f) := by
+  unfold planarKeepP planarUidP
   cases hn : f.needsRef
   · simp only [Bool.not_false, if_true, commonMatches_constructed p f hc hctx, specFilters_noRef _ p f hn]
   · simp only [Bool.not_true, Bool.false_eq_true, if_false, planarRefItem_constructed p hctx t it h,
@@ -798,27 +852,25 @@ theorem planarKeep_constructed (p : Params) (f : Filters) (hc : CleanNames p) (h
     cases hr : p.ref with
     | region2d gr s =>
       rw [hr] at h; simp only [planarFound, Option.some.injEq, Prod.mk.injEq] at h; obtain ⟨rfl, rfl⟩ := h
-      simp only [RoiRef.refType, RoiRef.firstGraphic, RoiRef.instances, optEq_some, refItems]
+      simp only [RoiRef.refType, RoiRef.graphics, RoiRef.instances, optEq_some, refItems]
       refine and_congr3 ?_ ?_
       · cases f.graphic with
         | none => rfl
         | some gt =>
-          simp only [graphicMatches, regionItem, pairBeq]
-          cases gt.1 <;> simp
+          exact graphic_single true gr _ rfl rfl gt
       · cases f.hasUid <;> simp [regionItem, kidsContainImage, srcKid, cImageRegion, cReferencedSegmentationFrame, cRegionInSpace]
     | region3d gr =>
       rw [hr] at h; simp only [planarFound, Option.some.injEq, Prod.mk.injEq] at h; obtain ⟨rfl, rfl⟩ := h
-      simp only [RoiRef.refType, RoiRef.firstGraphic, RoiRef.instances, optEq_some, refItems]
+      simp only [RoiRef.refType, RoiRef.graphics, RoiRef.instances, optEq_some, refItems]
       refine and_congr3 ?_ ?_
       · cases f.graphic with
         | none => rfl
         | some gt =>
-          simp only [graphicMatches, region3dItem, pairBeq]
-          cases gt.1 <;> simp
+          exact graphic_single false gr _ rfl rfl gt
       · cases f.hasUid <;> simp [region3dItem, cImageRegion, cReferencedSegmentationFrame, cRegionInSpace]
     | segframe seg s =>
       rw [hr] at h; simp only [planarFound, Option.some.injEq, Prod.mk.injEq] at h; obtain ⟨rfl, rfl⟩ := h
-      simp only [RoiRef.refType, RoiRef.firstGraphic, RoiRef.instances, optEq_some, refItems]
+      simp only [RoiRef.refType, RoiRef.graphics, RoiRef.instances, optEq_some, refItems]
       refine and_congr3 ?_ ?_
       · cases f.graphic with
         | none => rfl
@@ -828,7 +880,7 @@ theorem planarKeep_constructed (p : Params) (f : Filters) (hc : CleanNames p) (h
       · cases f.hasUid <;> simp [segframeItem, cImageRegion, cReferencedSegmentationFrame, cRegionInSpace, cSourceImageForSegmentation]
     | regionInSpace r =>
       rw [hr] at h; simp only [planarFound, Option.some.injEq, Prod.mk.injEq] at h; obtain ⟨rfl, rfl⟩ := h
-      simp only [RoiRef.refType, RoiRef.firstGraphic, RoiRef.instances, optEq_some, refItems]
+      simp only [RoiRef.refType, RoiRef.graphics, RoiRef.instances, optEq_some, refItems]
       refine and_congr3 ?_ ?_
       · cases f.graphic with
         | none => rfl
@@ -842,13 +894,12 @@ theorem planarKeep_constructed (p : Params) (f : Filters) (hc : CleanNames p) (h
       | [x], h =>
         simp only [planarFound, Option.some.injEq, Prod.mk.injEq] at h; obtain ⟨rfl, rfl⟩ := h
         obtain ⟨gr, s⟩ := x
-        simp only [RoiRef.refType, RoiRef.firstGraphic, RoiRef.instances, optEq_some, refItems]
+        simp only [RoiRef.refType, RoiRef.graphics, RoiRef.instances, optEq_some, refItems]
         refine and_congr3 ?_ ?_
         · cases f.graphic with
           | none => rfl
           | some gt =>
-            simp only [graphicMatches, regionItem, pairBeq]
-            cases gt.1 <;> simp
+            exact graphic_single true gr _ rfl rfl gt
         · cases f.hasUid <;> simp [regionItem, kidsContainImage, srcKid, cImageRegion, cReferencedSegmentationFrame, cRegionInSpace]
     | segment seg srcs ser => rw [hr] at h; simp [planarFound] at h
     | surface gr n srcs ser => rw [hr] at h; simp [planarFound] at h
@@ -863,9 +914,9 @@ theorem any_regions (rs : List (String × Ref)) (cls inst : Option String) :
     simp only [List.map_cons, List.any_cons, ih]
     simp [regionItem, kidsContainImage, srcKid]
 
-theorem volumetricKeep_constructed (p : Params) (f : Filters) (hc : CleanNames p) (hctx : ContextOK p) (t : String) (its : List GItem)
-    (h : volumetricFound p.ref = some (t, its)) : volumetricKeep (mkGroup p) f = .ok (specFilters .volumetric p f) := by
-  unfold volumetricKeep
+theorem volumetricKeepP_constructed (p : Params) (f : Filters) (hc : CleanNames p) (hctx : ContextOK p) (t : String) (its : List GItem)
+    (h : volumetricFound p.ref = some (t, its)) : volumetricKeepP (mkGroup p) f = .ok (specFilters .volumetric p f) := by
+  unfold volumetricKeepP volumetricUidP
   cases hn : f.needsRef
   · simp only [Bool.not_false, if_true, commonMatches_constructed p f hc hctx, specFilters_noRef _ p f hn]
   · obtain ⟨hfound, hne⟩ := volumetricRefItems_constructed p hctx t its h
@@ -885,13 +936,12 @@ theorem volumetricKeep_constructed (p : Params) (f : Filters) (hc : CleanNames p
           simp only [volumetricFound, Option.some.injEq, Prod.mk.injEq, List.map_cons, List.cons.injEq] at h
           obtain ⟨rfl, rfl, rfl⟩ := h
           obtain ⟨gr, s⟩ := x
-          simp only [RoiRef.refType, RoiRef.firstGraphic, RoiRef.instances, optEq_some, refItems]
+          simp only [RoiRef.refType, RoiRef.graphics, RoiRef.instances, optEq_some, refItems]
           refine and_congr3 ?_ ?_
           · cases f.graphic with
             | none => rfl
             | some gt =>
-              simp only [graphicMatches, regionItem, pairBeq]
-              cases gt.1 <;> simp
+              exact volGraphic_map regionItem true (·.1) (fun _ => rfl) (fun _ => rfl) gt ((gr, s) :: xs)
           · cases f.hasUid
             · simp
             · have := any_regions ((gr, s) :: xs) f.cls f.inst
@@ -902,13 +952,12 @@ theorem volumetricKeep_constructed (p : Params) (f : Filters) (hc : CleanNames p
         rw [hr] at h
         simp only [volumetricFound, Option.some.injEq, Prod.mk.injEq, List.cons.injEq] at h
         obtain ⟨rfl, rfl, rfl⟩ := h
-        simp only [RoiRef.refType, RoiRef.firstGraphic, RoiRef.instances, optEq_some, refItems]
+        simp only [RoiRef.refType, RoiRef.graphics, RoiRef.instances, optEq_some, refItems]
         refine and_congr3 ?_ ?_
         · cases f.graphic with
           | none => rfl
           | some gt =>
-            simp only [graphicMatches, segmentItem]
-            cases gt.1 <;> simp
+            exact volGraphic_other (segmentItem seg) (by simp [segmentItem]) (by simp [segmentItem]) gt
         · cases f.hasUid
           · simp
           · simp only [if_true, List.any_append, any_srcItems, any_seriesItems, List.any_cons, List.any_nil]
@@ -919,25 +968,23 @@ theorem volumetricKeep_constructed (p : Params) (f : Filters) (hc : CleanNames p
         | n + 1, h =>
           simp only [volumetricFound, Option.some.injEq, Prod.mk.injEq, List.replicate_succ, List.cons.injEq] at h
           obtain ⟨rfl, rfl, rfl⟩ := h
-          simp only [RoiRef.refType, RoiRef.firstGraphic, RoiRef.instances, optEq_some, refItems]
+          simp only [RoiRef.refType, RoiRef.graphics, RoiRef.instances, optEq_some, refItems]
           refine and_congr3 ?_ ?_
           · cases f.graphic with
             | none => rfl
             | some gt =>
-              simp only [graphicMatches, surfaceItem, pairBeq]
-              cases gt.1 <;> simp
+              exact volGraphic_replicate (surfaceItem gr) false gr rfl rfl gt (n + 1)
           · cases f.hasUid <;> simp [surfaceItem, cImageRegion, cReferencedSegment, cRegionInSpace, cVolumeSurface]
       | regionInSpace r =>
         rw [hr] at h
         simp only [volumetricFound, Option.some.injEq, Prod.mk.injEq, List.cons.injEq] at h
         obtain ⟨rfl, rfl, rfl⟩ := h
-        simp only [RoiRef.refType, RoiRef.firstGraphic, RoiRef.instances, optEq_some, refItems]
+        simp only [RoiRef.refType, RoiRef.graphics, RoiRef.instances, optEq_some, refItems]
         refine and_congr3 ?_ ?_
         · cases f.graphic with
           | none => rfl
           | some gt =>
-            simp only [graphicMatches, risItem]
-            cases gt.1 <;> simp
+            exact volGraphic_other (risItem r) (by simp [risItem]) (by simp [risItem]) gt
         · cases f.hasUid <;> simp [risItem, cImageRegion, cReferencedSegment, cRegionInSpace, cSourceImageForSegmentation]
       | region2d gr s => rw [hr] at h; simp [volumetricFound] at h
       | region3d gr => rw [hr] at h; simp [volumetricFound] at h
@@ -954,9 +1001,9 @@ theorem any_sourceImages (l : List Ref) (cls inst : Option String) :
     simp only [List.map_cons, List.any_cons, ih]
     simp
 
-theorem imageKeep_constructed (p : Params) (f : Filters) (hc : CleanNames p) (hctx : ContextOK p) (srcs : List Ref) (h : p.ref = .images srcs) :
-    imageKeep (mkGroup p) f = .ok (specFilters .image p f) := by
-  unfold imageKeep specFilters specUid
+theorem imageKeepP_constructed (p : Params) (f : Filters) (hc : CleanNames p) (hctx : ContextOK p) (srcs : List Ref) (h : p.ref = .images srcs) :
+    imageKeepP (mkGroup p) f = .ok (specFilters .image p f) := by
+  unfold imageKeepP specFilters specUid
   simp only [commonMatches_constructed p f hc hctx, containsImage_constructed p hctx, h, refItems, RoiRef.instances, Except.ok.injEq]
   congr 1
   cases f.hasUid
@@ -1050,9 +1097,9 @@ theorem images_of_kind (p : Params) (hcons : p.consistent = true) (hk : specKind
 
 /-- **One constructed group against one query**: the loop body decides exactly `kind ∧ every filter`, both read
 off the construction parameters. -/
-theorem keep_constructed (k : Kind) (p : Params) (f : Filters) (hcons : p.consistent = true) (hc : CleanNames p) (hctx : ContextOK p) :
-    keep k (mkGroup p) f = .ok (specKind k p && specFilters k p f) := by
-  unfold keep
+theorem keepP_constructed (k : Kind) (p : Params) (f : Filters) (hcons : p.consistent = true) (hc : CleanNames p) (hctx : ContextOK p) :
+    keepP k (mkGroup p) f = .ok (specKind k p && specFilters k p f) := by
+  unfold keepP
   rw [isKind_constructed k p hctx]
   cases hk : specKind k p
   · rfl
@@ -1060,13 +1107,488 @@ theorem keep_constructed (k : Kind) (p : Params) (f : Filters) (hcons : p.consis
     cases k with
     | planar =>
       obtain ⟨t, it, h⟩ := planarFound_of_kind p hcons hk
-      exact planarKeep_constructed p f hc hctx t it h
+      exact planarKeepP_constructed p f hc hctx t it h
     | volumetric =>
       obtain ⟨t, its, h⟩ := volumetricFound_of_kind p hcons hk
-      exact volumetricKeep_constructed p f hc hctx t its h
+      exact volumetricKeepP_constructed p f hc hctx t its h
     | image =>
       obtain ⟨srcs, h⟩ := images_of_kind p hcons hk
-      exact imageKeep_constructed p f hc hctx srcs h
+      exact imageKeepP_constructed p f hc hctx srcs h
+
+/-! ### sound groups: the error arms for malformed stored items do not fire -/
+
+theorem sound_parts (it : GItem) (h : it.sound = true) :
+    (it.vt = "SCOORD" → Gen.srGraphicTypes2D.contains it.graphic = true ∧ it.hasSeq = true) ∧
+    (it.vt = "SCOORD3D" → Gen.srGraphicTypes3D.contains it.graphic = true) ∧
+    ((it.vt = "IMAGE" ∨ it.vt = "COMPOSITE") → it.ref.isSome = true) ∧
+    (∀ k ∈ it.kids, (k.vt = "IMAGE" ∨ k.vt = "COMPOSITE") → k.ref.isSome = true) ∧
+    it.convertible = true := by
+  unfold GItem.sound at h
+  simp only [Bool.and_eq_true, Bool.or_eq_true, Bool.not_eq_true', beq_eq_false_iff_ne, ne_eq] at h
+  obtain ⟨⟨h1, h2⟩, h3⟩ := h
+  have h3' := h3
+  unfold GItem.convertible at h3
+  simp only [Bool.and_eq_true, Bool.or_eq_true, Bool.not_eq_true', Bool.or_eq_false_iff, beq_eq_false_iff_ne, ne_eq,
+    List.all_eq_true] at h3
+  refine ⟨?_, ?_, ?_, ?_, h3'⟩
+  · intro hv
+    rcases h1 with h1 | h1
+    · exact absurd hv h1
+    · exact h1
+  · intro hv
+    rcases h2 with h2 | h2
+    · exact absurd hv h2
+    · exact h2
+  · intro hv
+    rcases h3.1 with ⟨a, b⟩ | h
+    · rcases hv with hv | hv
+      · exact absurd hv a
+      · exact absurd hv b
+    · exact h
+  · intro k hk hv
+    have := h3.2 k hk
+    unfold Kid.sound at this
+    simp only [Bool.or_eq_true, Bool.not_eq_true', Bool.or_eq_false_iff, beq_eq_false_iff_ne, ne_eq] at this
+    rcases this with ⟨a, b⟩ | h
+    · rcases hv with hv | hv
+      · exact absurd hv a
+      · exact absurd hv b
+    · exact h
+
+theorem imageLoop_ok (cls inst : Option String) : ∀ l : List (Option Ref), (∀ r ∈ l, r.isSome = true) →
+    imageLoop cls inst l = .ok (l.any (fun r => refMatches r cls inst)) := by
+  intro l
+  induction l with
+  | nil => intro _; rfl
+  | cons r rs ih =>
+    intro h
+    cases r with
+    | none =>
+      have := h none (List.mem_cons_self ..)
+      cases this
+    | some r =>
+      simp only [imageLoop, List.any_cons]
+      cases hm : refMatches (some r) cls inst
+      · rw [ih (fun x hx => h x (List.mem_cons_of_mem _ hx))]
+        simp
+      · simp
+
+theorem any_filter_map {α β} (l : List α) (q : α → Bool) (g : α → β) (r : β → Bool) :
+    ((l.filter q).map g).any r = l.any (fun x => q x && r (g x)) := by
+  induction l with
+  | nil => rfl
+  | cons x xs ih =>
+    cases h : q x <;> simp [List.filter_cons, h, ih]
+
+theorem containsImageE_sound (g : Group) (hs : g.sound = true) (name rel : String) (cls inst : Option String) :
+    containsImageE g name rel cls inst = .ok (containsImage g name rel cls inst) := by
+  unfold containsImageE containsImage
+  rw [imageLoop_ok, any_filter_map]
+  intro r hr
+  simp only [List.mem_map, List.mem_filter, Bool.and_eq_true, beq_iff_eq] at hr
+  obtain ⟨it, ⟨hit, ⟨⟨_, hv⟩, _⟩⟩, rfl⟩ := hr
+  unfold Group.sound at hs
+  exact (sound_parts it (List.all_eq_true.mp hs it hit)).2.2.1 (Or.inl hv)
+
+theorem kidsContainImageE_sound (it : GItem) (hs : it.sound = true) (hv : it.vt = "SCOORD") (cls inst : Option String) :
+    kidsContainImageE it cls inst = .ok (kidsContainImage it cls inst) := by
+  obtain ⟨h1, _, _, h4, _⟩ := sound_parts it hs
+  unfold kidsContainImageE kidsContainImage
+  simp only [(h1 hv).2, Bool.not_true, Bool.false_eq_true, if_false]
+  rw [imageLoop_ok, any_filter_map]
+  intro r hr
+  simp only [List.mem_map, List.mem_filter, Bool.and_eq_true, beq_iff_eq] at hr
+  obtain ⟨k, ⟨hk, ⟨hkv, _⟩⟩, rfl⟩ := hr
+  exact h4 k hk (Or.inl hkv)
+
+theorem regionsLoop_sound (cls inst : Option String) : ∀ items : List GItem, (∀ it ∈ items, it.sound = true) →
+    regionsLoop cls inst items = .ok (items.any (fun it => it.vt == "SCOORD" && kidsContainImage it cls inst)) := by
+  intro items
+  induction items with
+  | nil => intro _; rfl
+  | cons it rest ih =>
+    intro h
+    have ih' := ih (fun x hx => h x (List.mem_cons_of_mem _ hx))
+    unfold regionsLoop
+    by_cases hv : it.vt = "SCOORD"
+    · simp only [hv, beq_self_eq_true, if_true, kidsContainImageE_sound it (h it (List.mem_cons_self ..)) hv, ih', List.any_cons,
+        Bool.true_and]
+    · have hb : (it.vt == "SCOORD") = false := beq_eq_false_iff_ne.mpr hv
+      simp only [hb, Bool.false_eq_true, if_false, ih', List.any_cons, Bool.false_and, Bool.false_or]
+
+theorem graphicRead_ok (a : Bool) (g : String) (h : (if a then Gen.srGraphicTypes2D else Gen.srGraphicTypes3D).contains g = true) :
+    graphicRead a g = .ok g := by
+  unfold graphicRead
+  simp only [h, if_true]
+
+theorem sound_graphic (it : GItem) (hs : it.sound = true) (a : Bool) (hv : it.vt = if a then "SCOORD" else "SCOORD3D") :
+    (if a then Gen.srGraphicTypes2D else Gen.srGraphicTypes3D).contains it.graphic = true := by
+  obtain ⟨h1, h2, _⟩ := sound_parts it hs
+  cases a
+  · exact h2 hv
+  · exact (h1 hv).1
+
+theorem graphicEntry_sound (it : GItem) (hs : it.sound = true) (gt : Bool × String) :
+    graphicEntry it gt = .ok (graphicMatches it gt) := by
+  unfold graphicEntry graphicMatches
+  by_cases hv : it.vt = (if gt.1 then "SCOORD" else "SCOORD3D")
+  · rw [if_pos (by simp [hv]), graphicRead_ok gt.1 it.graphic (sound_graphic it hs gt.1 hv)]
+    cases hg : gt.1 <;> simp [hg] at hv ⊢ <;> simp [hv]
+  · have hb : (it.vt == (if gt.1 then "SCOORD" else "SCOORD3D")) = false := beq_eq_false_iff_ne.mpr hv
+    rw [if_neg (by simp [hb])]
+    cases hg : gt.1 <;> simp [hg] at hb ⊢ <;> simp [hb]
+
+theorem graphicReadAll_sound (a : Bool) : ∀ items : List GItem, (∀ it ∈ items, it.sound = true) →
+    ∃ l, graphicReadAll a items = .ok l ∧
+      ∀ y, l.contains y = items.any (fun it => it.vt == (if a then "SCOORD" else "SCOORD3D") && it.graphic == y) := by
+  intro items
+  induction items with
+  | nil => intro _; exact ⟨[], rfl, fun _ => rfl⟩
+  | cons it rest ih =>
+    intro h
+    obtain ⟨l, hl, hc⟩ := ih (fun x hx => h x (List.mem_cons_of_mem _ hx))
+    unfold graphicReadAll
+    by_cases hv : it.vt = (if a then "SCOORD" else "SCOORD3D")
+    · refine ⟨it.graphic :: l, ?_, ?_⟩
+      · rw [if_pos (by simp [hv]), graphicRead_ok a it.graphic (sound_graphic it (h it (List.mem_cons_self ..)) a hv), hl]
+      · intro y
+        have hb : (it.vt == (if a then "SCOORD" else "SCOORD3D")) = true := by simp [hv]
+        simp only [List.contains_cons, List.any_cons, hc y, hb, Bool.true_and]
+        rw [BEq.comm]
+    · have hb : (it.vt == (if a then "SCOORD" else "SCOORD3D")) = false := beq_eq_false_iff_ne.mpr hv
+      refine ⟨l, ?_, ?_⟩
+      · rw [if_neg (by simp [hb]), hl]
+      · intro y
+        simp only [List.any_cons, hc y, hb, Bool.false_and, Bool.false_or]
+
+theorem volGraphicEntry_sound (items : List GItem) (hs : ∀ it ∈ items, it.sound = true) (gt : Bool × String) :
+    volGraphicEntry items gt = .ok (volGraphicMatches items gt) := by
+  obtain ⟨l, hl, hc⟩ := graphicReadAll_sound gt.1 items hs
+  unfold volGraphicEntry volGraphicMatches
+  rw [hl]
+  simp only [hc gt.2]
+
+/-- what the ROI search collects: items of the container, all under the reference type found, each of a value type the
+table lists for that type -/
+def RefInv (items : List GItem) (rt : Option String) (acc : List GItem) : Prop :=
+  ∀ x ∈ acc, x ∈ items ∧ rt = some x.name ∧ ∃ vts, Gen.refTypeValueTypes.lookup x.name = some vts ∧ vts.contains x.vt = true
+
+theorem roiRefLoop_inv (allowed : List String) (items : List GItem) :
+    ∀ (l : List GItem) (rt : Option String) (acc : List GItem) (rt' : Option String) (out : List GItem),
+      (∀ x ∈ l, x ∈ items) → RefInv items rt acc → roiRefLoop allowed l rt acc = .ok (rt', out) → RefInv items rt' out := by
+  intro l
+  induction l with
+  | nil =>
+    intro rt acc rt' out _ hinv h
+    simp only [roiRefLoop, Except.ok.injEq, Prod.mk.injEq] at h
+    obtain ⟨rfl, rfl⟩ := h
+    exact hinv
+  | cons it rest ih =>
+    intro rt acc rt' out hmem hinv h
+    have hrest : ∀ x ∈ rest, x ∈ items := fun x hx => hmem x (List.mem_cons_of_mem _ hx)
+    have hit : it ∈ items := hmem it (List.mem_cons_self ..)
+    unfold roiRefLoop at h
+    split at h
+    · exact ih rt acc rt' out hrest hinv h
+    · split at h
+      · split at h
+        · cases h
+        · rename_i vts hlk
+          split at h
+          · rename_i hvt
+            split at h
+            · -- first reference item
+              refine ih (some it.name) (acc ++ [it]) rt' out hrest ?_ h
+              intro x hx
+              rcases List.mem_append.mp hx with hx | hx
+              · have := (hinv x hx).2.1
+                cases this
+              · have : x = it := by simpa using hx
+                subst this
+                exact ⟨hit, rfl, vts, hlk, hvt⟩
+            · rename_i t
+              split at h
+              · cases h
+              · rename_i hname
+                split at h
+                · cases h
+                · refine ih (some t) (acc ++ [it]) rt' out hrest ?_ h
+                  have hn : it.name = t := by simpa using hname
+                  intro x hx
+                  rcases List.mem_append.mp hx with hx | hx
+                  · exact hinv x hx
+                  · have : x = it := by simpa using hx
+                    subst this
+                    exact ⟨hit, by rw [hn], vts, hlk, hvt⟩
+          · exact ih rt acc rt' out hrest hinv h
+      · exact ih rt acc rt' out hrest hinv h
+
+theorem roiRefItems_inv (g : Group) (allowed : List String) (t : String) (its : List GItem)
+    (h : roiRefItems g allowed = .ok (t, its)) :
+    ∀ x ∈ its, x ∈ g.items ∧ x.name = t ∧ ∃ vts, Gen.refTypeValueTypes.lookup t = some vts ∧ vts.contains x.vt = true := by
+  unfold roiRefItems at h
+  split at h
+  · cases h
+  · rename_i t' first more hloop
+    simp only [Except.ok.injEq, Prod.mk.injEq] at h
+    obtain ⟨rfl, rfl⟩ := h
+    intro x hx
+    obtain ⟨h1, h2, vts, h3, h4⟩ := roiRefLoop_inv allowed g.items g.items none [] (some t') (first :: more) (fun _ hx => hx)
+      (fun _ hx => by cases hx) hloop x hx
+    have hn : x.name = t' := (Option.some.inj h2).symm
+    exact ⟨h1, hn, vts, by rw [← hn]; exact h3, h4⟩
+  · cases h
+
+theorem refItemUid_sound (names : List String) (t : String) (it : GItem) (f : Filters)
+    (h : names.contains t = true → it.ref.isSome = true) :
+    refItemUid names t it f = .ok (names.contains t && refMatches it.ref f.cls f.inst) := by
+  unfold refItemUid
+  cases hc : names.contains t
+  · simp
+  · have := h hc
+    cases hr : it.ref with
+    | none => rw [hr] at this; cases this
+    | some r => simp
+
+theorem convertible_of_sound (g : Group) (hs : g.sound = true) : g.convertible = true := by
+  unfold Group.sound at hs
+  unfold Group.convertible
+  exact List.all_eq_true.mpr (fun it hit => (sound_parts it (List.all_eq_true.mp hs it hit)).2.2.2.2)
+
+theorem convertKept_of_convertible (g : Group) (h : g.convertible = true) (r : Except ErrKind Bool) : convertKept g r = r := by
+  cases r with
+  | error x => rfl
+  | ok b => cases b <;> simp [convertKept, h]
+
+theorem planarKeep_sound (g : Group) (hs : g.sound = true) (f : Filters) : planarKeep g f = planarKeepP g f := by
+  unfold planarKeep planarKeepP
+  cases hn : f.needsRef
+  · rfl
+  · simp only [Bool.not_true, Bool.false_eq_true, if_false]
+    cases hp : planarRefItem g with
+    | error x => rfl
+    | ok ti =>
+      obtain ⟨t, it⟩ := ti
+      -- the item found is an item of the container, of a value type the table lists for its reference type
+      have hfound : it ∈ g.items ∧ it.name = t ∧ ∃ vts, Gen.refTypeValueTypes.lookup t = some vts ∧ vts.contains it.vt = true := by
+        unfold planarRefItem at hp
+        split at hp
+        · cases hp
+        · rename_i t' it' hr
+          simp only [Except.ok.injEq, Prod.mk.injEq] at hp
+          obtain ⟨rfl, rfl⟩ := hp
+          exact roiRefItems_inv g _ _ _ hr it' (List.mem_cons_self ..)
+        · cases hp
+      obtain ⟨hmem, _, vts, hlk, hvt⟩ := hfound
+      have hsi : it.sound = true := List.all_eq_true.mp hs it hmem
+      have huid : planarUid g t it f = .ok (planarUidP g t it f) := by
+        unfold planarUid planarUidP
+        rw [refItemUid_sound, containsImageE_sound g hs]
+        · by_cases hv : it.vt = "SCOORD"
+          · have hb : (it.vt == "SCOORD") = true := by simp [hv]
+            rw [kidsContainImageE_sound it hsi hv]
+            cases h1 : (t == cImageRegion) <;> cases h2 : (t == cReferencedSegmentationFrame) <;>
+              simp only [hb, Bool.and_true, Bool.true_and, Bool.false_and, Bool.or_false, if_true, if_false, Bool.false_eq_true]
+          · have hb : (it.vt == "SCOORD") = false := beq_eq_false_iff_ne.mpr hv
+            cases h1 : (t == cImageRegion) <;> cases h2 : (t == cReferencedSegmentationFrame) <;>
+              simp only [hb, Bool.and_true, Bool.true_and, Bool.false_and, Bool.and_false, Bool.or_false, if_true, if_false,
+                Bool.false_eq_true]
+        · intro hc
+          apply (sound_parts it hsi).2.2.1
+          simp only [List.contains_cons, List.contains_nil, Bool.or_false, Bool.or_eq_true, beq_iff_eq] at hc
+          rcases hc with rfl | rfl
+          · have : vts = ["IMAGE"] := by
+              have e : Gen.refTypeValueTypes.lookup cReferencedSegmentationFrame = some ["IMAGE"] := by decide
+              rw [e] at hlk; exact (Option.some.inj hlk).symm
+            subst this
+            left; simpa using hvt
+          · have : vts = ["COMPOSITE"] := by
+              have e : Gen.refTypeValueTypes.lookup cRegionInSpace = some ["COMPOSITE"] := by decide
+              rw [e] at hlk; exact (Option.some.inj hlk).symm
+            subst this
+            right; simpa using hvt
+      cases f.graphic with
+      | none =>
+        cases f.hasUid
+        · simp only [Bool.false_eq_true, if_false, Bool.and_true]
+        · simp only [if_true, huid]
+      | some gt =>
+        simp only [graphicEntry_sound it hsi gt]
+        cases f.hasUid
+        · simp only [Bool.false_eq_true, if_false, Bool.and_true]
+        · simp only [if_true, huid]
+
+theorem volumetricKeep_sound (g : Group) (hs : g.sound = true) (f : Filters) : volumetricKeep g f = volumetricKeepP g f := by
+  unfold volumetricKeep volumetricKeepP
+  cases hn : f.needsRef
+  · rfl
+  · simp only [Bool.not_true, Bool.false_eq_true, if_false]
+    cases hp : roiRefItems g Gen.volumetricAllowedRefTypes with
+    | error x => rfl
+    | ok ti =>
+      obtain ⟨t, its⟩ := ti
+      cases its with
+      | nil => rfl
+      | cons first more =>
+        have hinv := roiRefItems_inv g _ _ _ hp
+        have hsall : ∀ it ∈ first :: more, it.sound = true := fun it hit => List.all_eq_true.mp hs it (hinv it hit).1
+        obtain ⟨_, _, vts, hlk, hvt⟩ := hinv first (List.mem_cons_self ..)
+        have huid : volumetricUid g t first (first :: more) f = .ok (volumetricUidP g t first (first :: more) f) := by
+          unfold volumetricUid volumetricUidP
+          rw [refItemUid_sound, containsImageE_sound g hs, regionsLoop_sound _ _ _ hsall]
+          · cases h1 : (t == cImageRegion) <;> cases h2 : (t == cReferencedSegment) <;>
+              simp only [Bool.and_true, Bool.true_and, Bool.false_and, Bool.or_false, if_true, if_false, Bool.false_eq_true]
+          · intro hc
+            apply (sound_parts first (hsall first (List.mem_cons_self ..))).2.2.1
+            simp only [List.contains_cons, List.contains_nil, Bool.or_false, Bool.or_eq_true, beq_iff_eq] at hc
+            rcases hc with rfl | rfl
+            · have : vts = ["IMAGE"] := by
+                have e : Gen.refTypeValueTypes.lookup cReferencedSegment = some ["IMAGE"] := by decide
+                rw [e] at hlk; exact (Option.some.inj hlk).symm
+              subst this
+              left; simpa using hvt
+            · have : vts = ["COMPOSITE"] := by
+                have e : Gen.refTypeValueTypes.lookup cRegionInSpace = some ["COMPOSITE"] := by decide
+                rw [e] at hlk; exact (Option.some.inj hlk).symm
+              subst this
+              right; simpa using hvt
+        cases f.graphic with
+        | none =>
+          cases f.hasUid
+          · simp only [Bool.false_eq_true, if_false, Bool.and_true]
+          · simp only [if_true, huid]
+        | some gt =>
+          simp only [volGraphicEntry_sound _ hsall gt]
+          cases f.hasUid
+          · simp only [Bool.false_eq_true, if_false, Bool.and_true]
+          · simp only [if_true, huid]
+
+theorem imageKeep_sound (g : Group) (hs : g.sound = true) (f : Filters) : imageKeep g f = imageKeepP g f := by
+  unfold imageKeep imageKeepP
+  cases f.hasUid
+  · simp
+  · simp only [if_true, containsImageE_sound g hs]
+
+/-- **On a sound group the loop body is the loop body without the malformed-item arms.** -/
+theorem keep_sound (k : Kind) (g : Group) (f : Filters) (hs : g.sound = true) : keep k g f = keepP k g f := by
+  have hc := convertible_of_sound g hs
+  unfold keep keepP
+  cases isKind k g with
+  | error x => rfl
+  | ok b =>
+    cases b
+    · rfl
+    · cases k with
+      | planar => simp only [planarKeep_sound g hs, convertKept_of_convertible g hc]
+      | volumetric => simp only [volumetricKeep_sound g hs, convertKept_of_convertible g hc]
+      | image =>
+        simp only [imageKeep_sound g hs, imageKeepP, hc, if_true]
+
+/-- plain items (TEXT, UIDREF, CODE, NUM without children) are sound -/
+theorem sound_plain (it : GItem) (hv : inertVt it.vt) (hk : it.kids = []) : it.sound = true := by
+  unfold GItem.sound GItem.convertible
+  rcases hv with h | h | h | h <;> simp [h, hk]
+
+theorem graphic2d_ne_empty (g : String) (h : g ∈ Gen.srGraphicTypes2D) : ¬ g = "" := by
+  intro e; subst e; revert h; decide
+
+theorem graphic3d_ne_empty (g : String) (h : g ∈ Gen.srGraphicTypes3D) : ¬ g = "" := by
+  intro e; subst e; revert h; decide
+
+theorem refItems_sound (p : Params) (hg : p.graphicsValid = true) : ∀ it ∈ refItems p.ref, it.sound = true := by
+  unfold Params.graphicsValid at hg
+  intro it hit
+  cases hr : p.ref with
+  | region2d gr s =>
+    rw [hr] at hit hg
+    simp only [refItems, List.mem_cons, List.not_mem_nil, or_false] at hit
+    subst hit
+    have hg' : gr ∈ Gen.srGraphicTypes2D := by simpa using hg
+    simp [GItem.sound, GItem.convertible, Kid.sound, srcKid, hg', graphic2d_ne_empty gr hg']
+  | region3d gr =>
+    rw [hr] at hit hg
+    simp only [refItems, List.mem_cons, List.not_mem_nil, or_false] at hit
+    subst hit
+    have hg' : gr ∈ Gen.srGraphicTypes3D := by simpa using hg
+    simp [GItem.sound, GItem.convertible, hg', graphic3d_ne_empty gr hg']
+  | segframe seg s =>
+    rw [hr] at hit
+    simp only [refItems, List.mem_cons, List.not_mem_nil, or_false] at hit
+    rcases hit with rfl | rfl <;> simp [GItem.sound, GItem.convertible]
+  | regions2d rs =>
+    rw [hr] at hit hg
+    simp only [refItems, List.mem_map] at hit
+    obtain ⟨x, hx, rfl⟩ := hit
+    have := List.all_eq_true.mp hg x hx
+    have hg' : x.1 ∈ Gen.srGraphicTypes2D := by simpa using this
+    simp [GItem.sound, GItem.convertible, Kid.sound, srcKid, hg', graphic2d_ne_empty x.1 hg']
+  | segment seg srcs ser =>
+    rw [hr] at hit
+    simp only [refItems, srcItems, seriesItems, List.mem_append, List.mem_cons, List.not_mem_nil, or_false, List.mem_map] at hit
+    rcases hit with (rfl | ⟨x, _, rfl⟩) | h
+    · simp [GItem.sound, GItem.convertible]
+    · simp [GItem.sound, GItem.convertible]
+    · cases ser with
+      | none => simp [seriesItems] at h
+      | some u => simp [seriesItems] at h; subst h; simp [GItem.sound, GItem.convertible]
+  | surface gr n srcs ser =>
+    rw [hr] at hit hg
+    simp only [refItems, srcItems, List.mem_append, List.mem_map] at hit
+    rcases hit with (h | ⟨x, _, rfl⟩) | h
+    · have := (List.mem_replicate.mp h).2
+      subst this
+      have hg' : gr ∈ Gen.srGraphicTypes3D := by simpa using hg
+      simp [GItem.sound, GItem.convertible, hg', graphic3d_ne_empty gr hg']
+    · simp [GItem.sound, GItem.convertible]
+    · cases ser with
+      | none => simp [seriesItems] at h
+      | some u => simp [seriesItems] at h; subst h; simp [GItem.sound, GItem.convertible]
+  | regionInSpace r =>
+    rw [hr] at hit
+    simp only [refItems, List.mem_cons, List.not_mem_nil, or_false] at hit
+    subst hit
+    simp [GItem.sound, GItem.convertible]
+  | images srcs =>
+    rw [hr] at hit
+    simp only [refItems, List.mem_map] at hit
+    obtain ⟨x, _, rfl⟩ := hit
+    simp [GItem.sound, GItem.convertible]
+
+theorem optItem_sound (name rel : String) (v : Option String) : ∀ it ∈ optItem name "CODE" rel v, it.sound = true := by
+  intro it h
+  cases v with
+  | none => simp [optItem] at h
+  | some x => simp [optItem] at h; subst h; simp [GItem.sound, GItem.convertible]
+
+/-- a group the constructors build is sound -/
+theorem mkGroup_sound (p : Params) (hg : p.graphicsValid = true) (hctx : ContextOK p) : (mkGroup p).sound = true := by
+  unfold Group.sound
+  apply List.all_eq_true.mpr
+  intro it hit
+  simp only [mkGroup, mkItems_eq, List.mem_append] at hit
+  rcases hit with h | h
+  · simp only [preItems, List.mem_append, List.mem_cons, List.not_mem_nil, or_false, List.mem_map] at h
+    rcases h with (((((((((h | h) | h) | h) | h) | h) | ⟨s, _, h⟩) | h) | ⟨x, _, h⟩) | ⟨x, _, h⟩) | h
+    · subst h; simp [GItem.sound, GItem.convertible]
+    · subst h; simp [GItem.sound, GItem.convertible]
+    · exact (hctx.1 it h).2.2
+    · exact optItem_sound _ _ _ it h
+    · exact optItem_sound _ _ _ it h
+    · exact optItem_sound _ _ _ it h
+    · subst h; simp [GItem.sound, GItem.convertible]
+    · exact (hctx.2 it h).2.2
+    · subst h; simp [GItem.sound, GItem.convertible]
+    · subst h; simp [GItem.sound, GItem.convertible]
+    · exact optItem_sound _ _ _ it h
+  · exact refItems_sound p hg it h
+
+/-- **One constructed group against one query**: the loop body (with every error arm) decides exactly `kind ∧ every
+filter`, both read off the construction parameters. -/
+theorem keep_constructed (k : Kind) (p : Params) (f : Filters) (hcons : p.consistent = true) (hg : p.graphicsValid = true)
+    (hc : CleanNames p) (hctx : ContextOK p) :
+    keep k (mkGroup p) f = .ok (specKind k p && specFilters k p f) := by
+  rw [keep_sound k _ f (mkGroup_sound p hg hctx)]
+  exact keepP_constructed k p f hcons hc hctx
 
 /-! ### accessors of a constructed container -/
 
@@ -1129,7 +1651,7 @@ theorem filter_ctx_other (l : List GItem) (hl : ∀ it ∈ l, ContextItemOK it) 
     l.filter (fun it => it.name == nm && it.vt == vt) = [] := by
   apply filter_nil_of_forall
   intro it hit
-  have h1 := (hl it hit).2
+  have h1 := (hl it hit).2.1
   have : (it.name == nm) = false := by
     apply beq_eq_false_iff_ne.mpr
     intro e
@@ -1274,7 +1796,7 @@ theorem referenceType_constructed (p : Params) (allowed : List String)
     | false => rfl
     | true =>
       have := hsub it.name hcon
-      rw [hok.2] at this
+      rw [hok.2.1] at this
       cases this
   rcases hit with (((((((((h | h) | h) | h) | h) | h) | ⟨s, _, h⟩) | h) | ⟨x, hx, h⟩) | ⟨x, hx, h⟩) | h
   · subst h; exact h1
